@@ -122,11 +122,14 @@ fn probes(thorough: bool) -> Vec<(&'static str, Stmt)> {
         }
     }
     // classification over an extended alphabet
-    for t in strings_upto(&["Z", "7", "f", "_", " ", "\u{e9}", "g"], 2) {
+    // (ASCII letters, digits and hexadecimal digits only: characters that Unicode also calls letters,
+    // digits or numbers - superscripts, fractions, Arabic-Indic, full-width and Roman numerals, Greek, CJK -
+    // are none of them)
+    for t in strings_upto(&["Z", "7", "f", "_", " ", "\u{e9}", "g", "\u{b2}", "\u{bd}", "\u{663}", "\u{2167}", "\u{ff14}", "\u{ff21}", "\u{ff46}", "\u{3b1}", "\u{4e09}", "\u{a0}", "\u{1d7d9}"], 2) {
         out.push(("S4_classification", probe(Expr::TupleLit(vec![invoke(s(&t), "is_alpha", vec![]), invoke(s(&t), "is_digit", vec![]), invoke(s(&t), "is_hexdigit", vec![])]))));
     }
     // to_num texts
-    for t in ["", "0", "1", "-1", "+1", "1.5", ".5", "5.", "1e3", "1E-2", "inf", "-inf", "NaN", "nan", "infinity", " 1", "1 ", "0x10", "1_000", "--1", "1.2.3", "\u{e9}", "1e400", "4.9e-324", "00012"] {
+    for t in ["", "0", "1", "-1", "+1", "1.5", ".5", "5.", "1e3", "1E-2", "inf", "-inf", "NaN", "nan", "infinity", " 1", "1 ", "0x10", "1_000", "--1", "1.2.3", "\u{e9}", "1e400", "4.9e-324", "00012", "\u{663}", "\u{ff14}\u{ff12}", "\u{b2}", "1\u{663}", "\u{bd}", "-Inf", "INF", "+inf", "-NaN", "1e", "e1", "-", "+", "."] {
         out.push(("S4_to_num", probe(invoke(s(t), "to_num", vec![]))));
     }
     // S3 sequences
@@ -306,7 +309,7 @@ pub fn run(ctx: &Ctx) -> Report {
     mcheck::fill_report(
         &mut report,
         &stats,
-        "every probe of: S1 string[i] for every string over a 1/2/3/4-byte alphabet up to 3/4 characters and every integer i in [-len-2, len+2] (every mid-character offset) plus fractional, NaN, +-inf, +-2^53, +-2^63 and non-number indices; S2 every slice b..e over the same integer domain; S3 the same for vecs and tuples of 0-4 elements including item assignment, and for every vec slice that it is a sequence of its own (pushes and item assignments on either side afterwards leave the other alone); S4 every string method with every needle of 1-2 characters and every start; S5 from_ascii/from_utf8 over all byte vectors up to length 2/3 from boundary bytes, all lead/continuation boundary sequences, from_code_points over boundary code points; S6 escape forms. 100 probes per program, one printed line each, compared with M-str byte for byte (error class on failure).",
+        "every probe of: S1 string[i] for every string over a 1/2/3/4-byte alphabet up to 3/4 characters and every integer i in [-len-2, len+2] (every mid-character offset) plus fractional, NaN, +-inf, +-2^53, +-2^63 and non-number indices; S2 every slice b..e over the same integer domain; S3 the same for vecs and tuples of 0-4 elements including item assignment, and for every vec slice that it is a sequence of its own (pushes and item assignments on either side afterwards leave the other alone); S4 every string method with every needle of 1-2 characters and every start, classification of every string of 1-2 characters over 18 characters incl. non-ASCII letters, digits and numerals of several scripts, 40 texts for to_num; S5 from_ascii/from_utf8 over all byte vectors up to length 2/3 from boundary bytes, all lead/continuation boundary sequences, from_code_points over boundary code points; S6 escape forms. 100 probes per program, one printed line each, compared with M-str byte for byte (error class on failure).",
         json!({"string_chars": if thorough { 4 } else { 3 }, "byte_vector_length": if thorough { 3 } else { 2 }}),
     );
     // the honest counts: probes, not programs
